@@ -1,5 +1,6 @@
 import ASV.Drv.J
 import ASV.Spec.Serial
+import ASV.Spec.ProtDna
 namespace ASV.Drv.C10
 open Lean ASV ASV.Drv ASV.Serial
 
@@ -160,6 +161,27 @@ def handle (j : Json) : R Json := do
                  ("swo", toJson (strictWeak r)), ("nodup", toJson (decide (allEntries r).Nodup)),
                  ("scope_wf", toJson (scopeButOrder r)),
                  ("swo_witness", if boolFD j "debug" false then Json.str (swoWitness r) else Json.null)]
+  | "prepeptide" =>
+    -- location part of Prepeptide.to_biopython / from_biopython
+    let l ← locOfJson (← fld j "loc")
+    let ld ← intF j "ld"
+    let tl ← intF j "tl"
+    let w := preWrite l ld tl
+    let wj := match w with
+      | .ok x => jObj [("ok", jObj [("core", locToJson x.core), ("leader", optToJson Json.str x.leader),
+                                    ("tail", optToJson Json.str x.tail)])]
+      | .valueError => jObj [("err", Json.str "value-error")]
+      | .assertion => jObj [("err", Json.str "assertion")]
+    let rr := match w with | .ok x => preRead x | _ => none
+    let translated := (ProtDna.bases l).take (3 * (l.len / 3).toNat)
+    let implRe ← optOf locOfJson j "re"
+    return jObj [("written", wj), ("reread", optToJson locToJson rr),
+                 ("model_bases_ok", toJson (match rr with | some r => ProtDna.bases r == translated | none => false)),
+                 ("impl_bases_ok", optToJson (fun (r : Loc) => toJson (ProtDna.bases r == translated)) implRe),
+                 ("impl_merged", optToJson (fun (r : Loc) => locToJson (mergeAdjoining r)) implRe),
+                 ("orig_merged", locToJson (mergeAdjoining l)),
+                 ("model_merged", optToJson (fun (r : Loc) => locToJson (mergeAdjoining r)) rr),
+                 ("scope", toJson (ProtDna.geneWF l && decide (0 ≤ ld) && decide (0 ≤ tl) && decide (ld + tl < l.len / 3)))]
   | "read" =>
     -- `Record.from_biopython` on an arbitrary feature list
     let bios ← listOf bioOfJson (← fld j "bios")
